@@ -16,6 +16,8 @@ def setup():
 
 
 def main():
+    common.ensure_std_fds()
+    os.umask(0o022)
     args = common.parse_args(sys.argv[1:])
     try:
         if args["setup"]:
